@@ -19,7 +19,7 @@ for pid in sorted(PROPS):
     })
 m = {
     "version": 1,
-    "setup_cmd": "cd /verif/lean && lake build && cd /verif/harness && cargo build --offline",
+    "setup_cmd": "cd /verif && ./setup.sh",
     "hooks": {
         "guard": "verif",
         "enable": "cargo feature `verif` of trustfall_core (and pytrustfall where used); /verif/harness depends on /repo's crates by path with that feature on, so every check rebuilds /repo's working tree with hooks enabled",
